@@ -158,14 +158,78 @@ def enumerate_mutants(src, fname):
             yield getattr(node, 'lineno', 0), desc, out
 
 
+CONFUSE = {'vmin': 'vmax', 'vmax': 'vmin', '_vmin': '_vmax', '_vmax': '_vmin', 'parent': 'ancestor', 'ancestor': 'parent',
+           'children': 'descendants', 'descendants': 'children', 'is_leaf': 'is_branch', 'is_branch': 'is_leaf',
+           'x_cen': 'y_cen', 'y_cen': 'x_cen', 'major_sigma': 'minor_sigma', 'minor_sigma': 'major_sigma',
+           'beam_major': 'beam_minor', 'beam_minor': 'beam_major', '_peak': '_peak_subtree', '_peak_subtree': '_peak',
+           'trunk': 'leaves', 'leaves': 'trunk', 'height': 'vmax', 'xdata': 'ydata', 'ydata': 'xdata',
+           '_indices': '_values', 'smallest_index': 'idx', 'min_delta': 'min_npix', 'min_npix': 'min_delta',
+           'append': 'extend', 'values': 'indices', 'indices': 'values', 'shape': 'size', 'ndim': 'size',
+           'hstack': 'vstack', 'vstack': 'hstack', 'nansum': 'nanmax', 'argsort': 'sort', 'where': 'nonzero',
+           'selections': 'select_subtree', 'xdata_': 'ydata_'}
+
+
+def enumerate_mutants2(src, fname):
+    """second campaign: confusable attribute / name swaps, argument swaps, subscript end swaps, off-by-one in slices"""
+    tree = ast.parse(src)
+    nodes = list(ast.walk(tree))
+    for idx, node in enumerate(nodes):
+        muts = []
+        if isinstance(node, ast.Attribute) and node.attr in CONFUSE and isinstance(node.ctx, ast.Load):
+            muts.append(('attr %s->%s' % (node.attr, CONFUSE[node.attr]), ('attr', CONFUSE[node.attr])))
+        elif isinstance(node, ast.Name) and node.id in CONFUSE and isinstance(node.ctx, ast.Load):
+            muts.append(('name %s->%s' % (node.id, CONFUSE[node.id]), ('name', CONFUSE[node.id])))
+        elif isinstance(node, ast.Call) and len(node.args) == 2 and not any(isinstance(a, ast.Starred) for a in node.args):
+            muts.append(('swap the two arguments', ('swapargs',)))
+        elif isinstance(node, ast.Subscript) and isinstance(node.slice, ast.Constant) and node.slice.value in (0, -1) and isinstance(node.ctx, ast.Load):
+            muts.append(('subscript [%d]->[%d]' % (node.slice.value, -1 - node.slice.value), ('sub', -1 - node.slice.value)))
+        elif isinstance(node, ast.Subscript) and isinstance(node.slice, ast.UnaryOp) and isinstance(node.slice.operand, ast.Constant) and node.slice.operand.value == 1:
+            muts.append(('subscript [-1]->[0]', ('sub', 0)))
+        elif isinstance(node, ast.Slice) and node.upper is None and node.lower is not None and isinstance(node.lower, ast.Constant) and isinstance(node.lower.value, int):
+            muts.append(('slice [%d:]->[%d:]' % (node.lower.value, node.lower.value + 1), ('slicelow', node.lower.value + 1)))
+        elif isinstance(node, ast.keyword) and isinstance(node.value, ast.Constant) and isinstance(node.value.value, bool):
+            pass
+        elif isinstance(node, ast.IfExp):
+            muts.append(('swap the branches of a conditional expression', ('swapifexp',)))
+        elif isinstance(node, ast.If) and node.orelse and not (len(node.orelse) == 1 and isinstance(node.orelse[0], ast.If)):
+            muts.append(('swap if / else bodies', ('swapif',)))
+        for desc, m in muts:
+            t2 = copy.deepcopy(tree)
+            n2 = list(ast.walk(t2))[idx]
+            try:
+                if m[0] == 'attr':
+                    n2.attr = m[1]
+                elif m[0] == 'name':
+                    n2.id = m[1]
+                elif m[0] == 'swapargs':
+                    n2.args = [n2.args[1], n2.args[0]]
+                elif m[0] == 'sub':
+                    n2.slice = ast.Constant(value=m[1])
+                elif m[0] == 'slicelow':
+                    n2.lower = ast.Constant(value=m[1])
+                elif m[0] == 'swapifexp':
+                    n2.body, n2.orelse = n2.orelse, n2.body
+                elif m[0] == 'swapif':
+                    n2.body, n2.orelse = n2.orelse, n2.body
+                ast.fix_missing_locations(t2)
+                out = ast.unparse(t2)
+                compile(out, fname, 'exec')
+            except Exception:
+                continue
+            yield getattr(node, 'lineno', 0), desc, out
+
+
 def in_docstring_or_trivial(src_line):
     s = src_line.strip()
     return s.startswith(('"""', "'''", '#', 'warnings.warn', 'raise ', 'print(', 'import ', 'from '))
 
 
-def cmd_gen(outdir):
+def cmd_gen(outdir, second=False):
     os.makedirs(outdir, exist_ok=True)
     index = []
+    global enumerate_mutants
+    if second:
+        enumerate_mutants = enumerate_mutants2
     for f in FILES:
         src = open(os.path.join(REPO, f)).read()
         lines = src.split('\n')
@@ -320,6 +384,8 @@ if __name__ == '__main__':
     c = sys.argv[1]
     if c == 'gen':
         cmd_gen(sys.argv[2])
+    elif c == 'gen2':
+        cmd_gen(sys.argv[2], second=True)
     elif c == 'test':
         cmd_test(sys.argv[2], sys.argv[3], int(sys.argv[4]) if len(sys.argv) > 4 else 12)
     elif c == 'hunt':
